@@ -38,6 +38,9 @@ type obs struct {
 	done      bool
 	note      string
 	seen      []seenObs
+	finalErrText, parentErrText string
+	parentErrs                  int
+	waitErrText, closeErrText   string
 }
 
 // seenObs is what a reader saw after it had observed the done signal.
@@ -98,6 +101,11 @@ func build(sp Spec, o *obs) func() {
 						o.readErrs = append(o.readErrs, append([]error{}, cs.Errors()...))
 					case "err()":
 						cs.Err()
+					case "perr":
+						// an error recorded through ANOTHER wrapper of the same context (the parent scope)
+						e := fmt.Errorf("p-%d-%d", ti, oi)
+						o.appended = append(o.appended, e)
+						parent.AppendError(e)
 					case "seen":
 						// a reader that has observed the done signal looks at the error accessors
 						if cs.IsDone() {
@@ -115,6 +123,15 @@ func build(sp Spec, o *obs) func() {
 		wg.Wait()
 		o.finalErrs = append([]error{}, cs.Errors()...)
 		o.isDone = cs.IsDone()
+		if e := cs.Err(); e != nil {
+			o.finalErrText = e.Error()
+		}
+		if parent != nil && sp.Kind == "child" {
+			if e := parent.Err(); e != nil {
+				o.parentErrText = e.Error()
+			}
+			o.parentErrs = len(parent.Errors())
+		}
 		if sp.Kind == "childof-done" {
 			// sequential: the parent has ended; creating and closing a child must be safe
 			ch := scope.NewChild(parent, scope.ChildParams{})
@@ -124,6 +141,12 @@ func build(sp Spec, o *obs) func() {
 			o.waitErr = full.Wait()
 			o.closeErr = full.Close()
 			o.closed = true
+			if o.waitErr != nil {
+				o.waitErrText = o.waitErr.Error()
+			}
+			if o.closeErr != nil {
+				o.closeErrText = o.closeErr.Error()
+			}
 		}
 		if parent != nil {
 			parent.Close()
@@ -151,6 +174,27 @@ func judge(sp Spec, o *obs) func(x *explore.Exec) *explore.Verdict {
 			}
 			if !found {
 				return &explore.Verdict{Kind: "error-lost-or-duplicated", Clause: "every appended error is retained", Detail: fmt.Sprintf("appended error %v is missing from Errors() = %v", e, o.finalErrs)}
+			}
+		}
+		// the cumulative accessors name every appended error - whichever wrapper of the context
+		// recorded it and whatever was asked before
+		texts := map[string]string{"Err()": o.finalErrText}
+		if o.closed {
+			texts["Wait()"], texts["Close()"] = o.waitErrText, o.closeErrText
+		}
+		if sp.Kind == "child" {
+			texts["parent.Err()"] = o.parentErrText
+			if o.parentErrs != want {
+				return &explore.Verdict{Kind: "error-lost-or-duplicated", Clause: "every appended error is retained and reported by the scope's error accessors",
+					Detail: fmt.Sprintf("the parent (same context) holds %d errors, %d were recorded", o.parentErrs, want)}
+			}
+		}
+		for _, e := range o.appended {
+			for acc, txt := range texts {
+				if !strings.Contains(txt, e.Error()) {
+					return &explore.Verdict{Kind: "error-not-reported-by-accessor", Clause: "every appended error is retained and reported by the scope's error accessors and by waiting on or closing it",
+						Detail: fmt.Sprintf("%s = %q does not mention the appended error %q (Errors() holds %d)", acc, short(txt), e.Error(), len(o.finalErrs))}
+				}
 			}
 		}
 		for _, rd := range o.readErrs {
@@ -183,6 +227,13 @@ func judge(sp Spec, o *obs) func(x *explore.Exec) *explore.Verdict {
 		}
 		return nil
 	}
+}
+
+func short(s string) string {
+	if len(s) > 300 {
+		return s[:300] + "..."
+	}
+	return s
 }
 
 func hasOp(sp Spec, op string) bool {
@@ -226,6 +277,11 @@ func programs(thorough bool) []Spec {
 			Spec{k, [][]string{{"err2"}, {"seen"}, {"seen"}}, b3},
 			Spec{k, [][]string{{"err"}, {"kill"}, {"seen"}}, b3},
 		)
+		// cumulative accessors asked between appends
+		ps = append(ps,
+			Spec{k, [][]string{{"err", "err()", "err", "err()"}}, 0},
+			Spec{k, [][]string{{"err", "err()"}, {"err", "err()"}}, b2},
+		)
 		// three threads
 		ps = append(ps,
 			Spec{k, [][]string{{"err"}, {"err"}, {"err"}}, b3},
@@ -234,6 +290,13 @@ func programs(thorough bool) []Spec {
 			Spec{k, [][]string{{"kill"}, {"kill"}, {"errors"}}, b3},
 		)
 	}
+	// errors recorded through different wrappers of one context, cumulative accessors in between
+	ps = append(ps,
+		Spec{"child", [][]string{{"err", "err()", "perr", "err()"}}, 0},
+		Spec{"child", [][]string{{"perr", "err()", "err", "err()", "kill"}}, 0},
+		Spec{"child", [][]string{{"err", "err()"}, {"perr", "err()"}}, b2},
+		Spec{"child", [][]string{{"err", "err()", "err()"}, {"perr"}, {"perr"}}, b3},
+	)
 	// children of a scope that is done / ends concurrently
 	for _, end := range []string{"stop", "kill", "err"} {
 		ps = append(ps, Spec{"childof-done", [][]string{{end}}, 0})
